@@ -49,6 +49,7 @@ def check_case(ctx, spec, provided, select, runner, label):
         ctx.violation("C01:rejected:" + type(e).__name__, f"a valid acyclic program was rejected at construction: {type(e).__name__}: {str(e)[:200]}", case)
         return None
     inv = out.rec.invocations()
+    early_waiters, early_outs = _early_waiters(spec)
     ctx.obs["enter_events"] += sum(len(v) for v in inv.values())
     ctx.obs["steps"] += out.rec.count("ready")
     if out.exc is not None:
@@ -63,6 +64,9 @@ def check_case(ctx, spec, provided, select, runner, label):
         extra = sorted(set(out.values) - set(exp_values))
         wrong = sorted(k for k in exp_values if k in out.values and out.values[k] != exp_values[k])
         key = "C01:values:" + ("missing" if missing else "extra" if extra else "wrong")
+        if early_outs and not missing and not extra and set(wrong) <= early_outs:
+            # known finding: only outputs of (or downstream of) a WAITING node that has a defaulted upstream-fed input
+            key += ":waiter-ran-early-on-default"
         ctx.violation(key, f"values differ from dependency-order evaluation: missing={missing} extra={extra} wrong={wrong}; got={core.short(out.values)} expected={core.short(exp_values)}", case)
     fids = set(core_all_fids(spec))
     for fid in fids:
@@ -73,7 +77,7 @@ def check_case(ctx, spec, provided, select, runner, label):
                 continue
             ctx.obs["args_compared"] += 1
             if calls[-1] != R.args[fid]:
-                ctx.violation("C01:args", f"{fid} last invoked with {core.short(calls[-1])}, dependency-order evaluation gives {core.short(R.args[fid])}", case)
+                ctx.violation("C01:args" + (":waiter-ran-early-on-default" if fid.rsplit("/", 1)[-1] in early_waiters else ""), f"{fid} last invoked with {core.short(calls[-1])}, dependency-order evaluation gives {core.short(R.args[fid])}", case)
             if fid in R.once:
                 ctx.obs["once_checked"] += 1
                 if len(calls) != 1:
@@ -83,6 +87,53 @@ def check_case(ctx, spec, provided, select, runner, label):
             if calls:
                 ctx.violation("C01:unsat-ran", f"{fid} cannot be satisfied but was invoked {len(calls)} times with {core.short(calls[0])}", case)
     return out
+
+
+def _early_waiters(spec):
+    """(names, outputs) of the top-level WAITING function nodes that can run on a provisional value - through an own
+    defaulted parameter that another node produces, or downstream of a node that has one (such a node runs early on its
+    default and again on the real value) - together with everything downstream of those waiters."""
+    nodes = [ns for ns in spec["nodes"] if ns["k"] == "fn"]
+    produced = {e for ns in spec["nodes"] for e in ref.data_output_names(ns)}
+
+    def closure(seed):
+        hit = set(seed)
+        outs = {e for ns in nodes if ns["name"] in hit for e in ns.get("outs", [])}
+        grew = True
+        while grew:
+            grew = False
+            for ns in nodes:
+                if ns["name"] not in hit and any(q["n"] in outs for q in ns.get("params", [])):
+                    hit.add(ns["name"])
+                    outs |= set(ns.get("outs", []))
+                    grew = True
+        return hit, outs
+
+    provisional, _ = closure({ns["name"] for ns in nodes if any("d" in q and q["n"] in produced for q in ns.get("params", []))})
+    waiters = {ns["name"] for ns in nodes if ns.get("wait") and ns["name"] in provisional}
+    if not waiters:
+        return set(), set()
+    return closure(waiters)
+
+
+def waiting_dags(ctx, i):
+    """Acyclic, gate-free programs with ordering signals (emit / wait_for on signals and on data names), a third of the
+    upstream-fed parameters carrying a signature default: the same dependency-order evaluation applies."""
+    rng = ctx.rng
+    spec = gen.gen_wait_dag(rng, False, p_default_edge=rng.choice([0.0, 0.3, 0.5]))
+    if any(ns["k"] != "fn" for ns in spec["nodes"]):
+        spec["nodes"] = [ns for ns in spec["nodes"] if ns["k"] == "fn" and ns["name"] != "after_gate"]
+    spec["bind"] = {}
+    for ns in spec["nodes"]:
+        ns["fid"] = f"g/{ns['name']}"
+    provided = {k: f"run:{k}" for k in ref.ref_inputs(spec)[0]}
+    ok = False
+    for runner in ("sync", "async"):
+        out = check_case(ctx, spec, provided, None, runner, "waiting-dag")
+        ok = ok or (out is not None and bool(out.values))
+    ctx.obs["waiting_dag_programs"] += 1
+    ctx.obs["waiting_dag_early_waiter_programs"] += int(bool(_early_waiters(spec)[0]))
+    ctx.case({"s": gen.shape_of(spec), "wait": True}, ok)
 
 
 def core_all_fids(spec):
@@ -195,6 +246,51 @@ def shared_equal_defaults(ctx):
     ctx.case({"directed": "shared-equal-defaults"}, True)
 
 
+def identity_sentinel_defaults(ctx):
+    """The usual `_MISSING = object()` idiom: a function tells 'argument left out' from 'argument given' by IDENTITY with
+    its own signature default. Evaluating the function in dependency order with the default gives the 'left out'
+    answer; so must a run that supplies nothing for the parameter (flat, nested, behind a renamed input, both runners,
+    two runs in a row). Sentinels: a bare object(), None, Ellipsis, an Enum member, a class, a function, the empty
+    tuple."""
+    import asyncio
+    import enum
+
+    from hypergraph import AsyncRunner, FunctionNode, Graph, SyncRunner
+
+    class Flag(enum.Enum):
+        UNSET = 0
+
+    class Marker:
+        """a class used as the sentinel itself (not an instance)"""
+
+    def helper():
+        return None
+
+    sentinels = {"object()": object(), "None": None, "Ellipsis": ..., "enum member": Flag.UNSET, "class": Marker, "function": helper, "()": ()}
+    for label, sent in sentinels.items():
+        for shape in ("flat", "nested", "nested-renamed"):
+
+            def pick(x, opt=sent, _s=sent):
+                return ("left out" if opt is _s else "given", x)
+
+            nd = FunctionNode(pick, name="pick", output_name="o")
+            if shape != "flat":
+                gn = Graph([nd], name="box").as_node()
+                if shape == "nested-renamed":
+                    gn = gn.with_inputs(opt="opt_outer")
+                nd = gn
+            g = Graph([nd], name="sent")
+            for runner in ("sync", "async"):
+                for rep in range(2):
+                    r = SyncRunner().run(g, {"x": 1}) if runner == "sync" else asyncio.run(AsyncRunner().run(g, {"x": 1}))
+                    ctx.obs["identity_sentinel_runs"] += 1
+                    ctx.obs["values_compared"] += 1
+                    if r.values.get("o") != ("left out", 1):
+                        ctx.violation("C01:values:wrong:identity-sentinel-default", f"{runner}, {shape}: a parameter whose signature default is the sentinel {label} was left out, yet the function did not receive its default object (`opt is SENTINEL` is False): {r.values!r}", {"program": f"pick(x, opt=<{label}>) {shape}", "runner": runner, "run": rep})
+                        break
+    ctx.case({"directed": "identity-sentinel-defaults"}, True)
+
+
 def run(ctx):
     n = 450 if ctx.tier == "quick" else 9000
     if ctx.replay:
@@ -210,6 +306,7 @@ def run(ctx):
     if ctx.shard[0] == 0:
         equal_but_different(ctx)
         shared_equal_defaults(ctx)
+        identity_sentinel_defaults(ctx)
         # directed: a nested graph with its own binding that the selection does not need but that can still run
         for sel_kind in ("graph", "runtime"):
             for sel in (["p"], ["p", "m"]):
@@ -254,6 +351,9 @@ def run(ctx):
         ctx.case({"directed": "nested-output-renamed-back"}, True)
     for i in range(n):
         rng = ctx.rng
+        if i % 8 == 3:
+            waiting_dags(ctx, i)
+            continue
         if i % 8 == 7:
             # a mapping node around a small DAG whose inner graph binds a broadcast input; the caller overrides the
             # binding in 60% of the cases (run-time value > bound value, also through the map pipeline)
